@@ -2,3 +2,6 @@ import WrglModel.Props.C17
 #print axioms Wrgl.C17_decoders_never_panic
 #print axioms Wrgl.C17_packfile_reader_safe
 #print axioms Wrgl.C17_output_bounded_by_input
+#print axioms Wrgl.C17_fact_indexTableChecks
+#print axioms Wrgl.C17_indexTable_never_panics
+#print axioms Wrgl.C17_indexTable_unchecked_panics
